@@ -1,7 +1,13 @@
 """C19 — see DESIGN.md section 4 ("the repository model") and lean/XvcRepo/XvcRepo/Props/C19.lean.
 Proof: Lean theorems about the executable repository model.  Tie: the model driver is compared with the rebuilt xvc
-binary after every command of generated histories.  Oracle: model-independent, lib/repo_check.py."""
-import random
+binary after every command of generated histories.  Oracle: model-independent, lib/repo_check.py.
+
+Second stream (multi-source copy / move, lean/XvcRepo/XvcRepo/CopyMany.lean + Props/C19Many.lean): `many_*` below."""
+import os, re, json, random, hashlib, collections, subprocess
+from concurrent.futures import ThreadPoolExecutor
+import hashref
+import common
+import repo_harness as rh
 import repo_check as rc
 from repo_check import W, T, CI, RC
 
@@ -42,10 +48,691 @@ def chain_histories(seed, n):
     return out
 
 
+# ====================================================================================================================
+# multi-source copy / move
+#
+# One `xvc file copy|move <SOURCE> <DEST>` where SOURCE is a directory (`d/`: the files directly in it; `d`: everything
+# below it), a glob, a character class, or a single file, and DEST is a directory (`out/`) or a file.  Histories are
+# generated ADAPTIVELY: the next command is drawn from what is observed in the real repository (which paths are recorded,
+# present, modified), so the regions of the open findings are excluded on the facts and not on a prediction:
+#   K2  destinations keep the source's extension (automatic under a directory destination),
+#   K9  no `move` of a source that is absent from the workspace with method copy -> copy,
+#   K1  no two contents equal after CR/LF stripping,
+#   collisions: `--name-only` is dropped when two selected sources have the same file name (replay MANY_REPLAYS),
+#   overlap: no destination is itself a candidate source of the same command (order dependent in the code).
+# After every command the abstraction of the real repository is compared with the Lean driver (`copym` / `movem`), and
+# `o7m_copy_move_many` states C19 for every selected source from the observations alone.
+# ====================================================================================================================
+
+MANY_OPS = ('copym', 'movem')
+FIX_MARKER = 'Multiple sources are to be copied to'       # error text of patches/F28-copy-name-only-collision.patch (6bdf9b9d)
+
+
+def collisions_refused():
+    """which variant of `get_copy_source_dest_store` the tree under test has (parameter `collisionsRefused` of
+    `St.copyMany`), read from the source text"""
+    try:
+        return FIX_MARKER in open(os.path.join(common.REPO, 'file', 'src', 'copy', 'mod.rs')).read()
+    except OSError:
+        return False
+
+
+def glob_regex(g):
+    """the glob syntax of the `fast-glob` crate as far as the generator uses it: `**` crosses `/`, `*` and `?` do not,
+    `[..]` is a character class; everything else is literal"""
+    out, i = [], 0
+    while i < len(g):
+        if g.startswith('**/', i):
+            out.append('(?:.*/)?'); i += 3
+        elif g.startswith('**', i):
+            out.append('.*'); i += 2
+        elif g[i] == '*':
+            out.append('[^/]*'); i += 1
+        elif g[i] == '?':
+            out.append('[^/]'); i += 1
+        elif g[i] == '[' and ']' in g[i:]:
+            j = g.index(']', i)
+            out.append('[' + g[i + 1:j] + ']'); i = j + 1
+        else:
+            out.append(re.escape(g[i])); i += 1
+    return re.compile(''.join(out) + r'\Z')
+
+
+def candidates(source, universe, recorded):
+    """paths of `universe` the SOURCE argument designates (`get_source_path_metadata` + `filter_paths_by_globs` +
+    `build_glob_matcher`): `d/` -> glob `d/*`; a star-less name below which a path is recorded (or that is a directory on
+    disk, below which nothing is recorded then) -> `name/**`; anything else is a glob / a literal path"""
+    if source.endswith('/'):
+        g = source + '*'
+    elif '*' not in source and any(p.startswith(source + '/') for p in recorded):
+        g = source + '/**'
+    else:
+        g = source
+    rx = glob_regex(g)
+    return sorted(p for p in universe if rx.match(p))
+
+
+def many_pairs(c, obs):
+    """[(source, destination)] for the candidates that are recorded as files in `obs`; destination = DEST/<source path>,
+    DEST/<file name> with --name-only, or DEST itself when it is not a directory"""
+    isdir = c['dest'].endswith('/')
+
+    def dst(p):
+        if not isdir:
+            return c['dest']
+        return c['dest'] + (p.rsplit('/', 1)[-1] if c.get('name_only') else p)
+    return [(p, dst(p)) for p in c['cands'] if p in obs.recs], isdir
+
+
+def many_model_line(c, fixed):
+    o = lambda k: c.get(k) or '-'
+    b = lambda k: '1' if c.get(k) else '0'
+    if c['op'] == 'copym':
+        return '\t'.join(['copym', o('method'), b('no_recheck'), b('force'), b('name_only'), '1' if fixed else '0', c['dest']] + c['cands'])
+    if c['op'] == 'movem':
+        return '\t'.join(['movem', o('method'), b('no_recheck'), c['dest']] + c['cands'])
+    return rh.model_line(c)
+
+
+def many_store_line(c):
+    """history lines kept in replay files: the model line plus the SOURCE argument as typed"""
+    if c['op'] in MANY_OPS:
+        return json.dumps({k: c.get(k) for k in ('op', 'source', 'dest', 'method', 'no_recheck', 'force', 'name_only', 'cands')})
+    return rh.model_line(c)
+
+
+def many_parse_line(l):
+    if l.startswith('{'):
+        return json.loads(l)
+    return rc.parse_model_line(l)
+
+
+def many_args(c):
+    a = ['file', 'copy' if c['op'] == 'copym' else 'move']
+    if c.get('method'): a += ['--recheck-method', c['method']]
+    if c.get('no_recheck'): a.append('--no-recheck')
+    if c.get('force') and c['op'] == 'copym': a.append('--force')
+    if c.get('name_only') and c['op'] == 'copym': a.append('--name-only')
+    return a + [c['source'], c['dest']]
+
+
+def many_show(c):
+    if c['op'] in MANY_OPS:
+        return 'xvc ' + ' '.join(f"'{x}'" if '*' in x or '[' in x else x for x in many_args(c))
+    return rh.show_cmd(c)
+
+
+def path_dups(sb):
+    """paths recorded by more than one file entity (Obs.recs is keyed by path and cannot show them)"""
+    paths, metas = sb.store_map('xvc-path'), sb.store_map('xvc-metadata')
+    n = collections.Counter(p for e, p in paths.items() if (metas.get(e) or {}).get('file_type') == 'File')
+    return sorted(p for p, k in n.items() if k > 1)
+
+
+class ManyRunner(rh.Runner):
+    """Runner that knows the two multi-source commands and can draw the next commands from the observed state"""
+
+    def exec_cmd(self, sb, cfg, c, pre=None):
+        if c['op'] in MANY_OPS:
+            return sb.x(*(self.cfg_args(cfg) + many_args(c)))
+        return super().exec_cmd(sb, cfg, c, pre)
+
+    def run_adaptive(self, name, cfg, next_cmds, fixed_history=None):
+        """`next_cmds(obs, k)` returns the next batch of commands (or None to stop); with `fixed_history` that list is
+        executed instead.  Returns (history as executed, steps)."""
+        sb = self.new_sandbox(name)
+        table = rh.Table()
+        steps, hist = [], []
+        stamps = {'k': 0, 'mine': set()}
+        pre = rh.Obs(sb)
+        dups = path_dups(sb)
+        k = 0
+        queue = list(fixed_history) if fixed_history is not None else []
+        while True:
+            if not queue:
+                batch = next_cmds(pre, k) if fixed_history is None else None
+                k += 1
+                if not batch:
+                    break
+                queue = list(batch)
+            c = queue.pop(0)
+            if c['op'] == 'write':
+                table.add(c['bytes'])
+            rcode, out, err = self.exec_cmd(sb, cfg, c, pre)
+            self.restamp(sb, stamps)
+            post = rh.Obs(sb)
+            ndups = path_dups(sb)
+            steps.append({'i': len(hist), 'cmd': c, 'rc': rcode, 'out': out[-400:], 'err': err[-600:], 'pre': pre, 'post': post,
+                          'abs': rh.abstraction(post, table), 'dups_pre': dups, 'dups_post': ndups})
+            hist.append(c)
+            pre, dups = post, ndups
+            if rcode not in (0, 1):
+                break
+        sb.cleanup()
+        return hist, steps
+
+    def many_model_answers(self, items, fixed):
+        """items: [(cfg, history)] -> [[answer line per command]]"""
+        lines = []
+        for cfg, h in items:
+            lines.append('\t'.join(['cfg', str(cfg['algo']), cfg['method'], cfg['tob']]))
+            lines += [many_model_line(c, fixed) for c in h]
+            lines.append('reset')
+        p = subprocess.run([self.model_bin], input='\n'.join(lines) + '\n', stdout=subprocess.PIPE, text=True, timeout=3000)
+        out = p.stdout.split('\n')
+        res, k = [], 0
+        for cfg, h in items:
+            k += 1
+            res.append(out[k:k + len(h)]); k += len(h) + 1
+        return res
+
+
+# ------------------------------------------------------------------------------------------------ generator
+
+MANY_DIRS = ['d', 'd/e', 'd2', 'k']
+MANY_NAMES = ['a', 'b', 'c', 'n']
+
+
+class ManyGen:
+    """one adaptive history: a repository with nested directories, equal file names in different directories, two
+    extensions, tracked / untracked files, then 3..5 multi-source commands each preceded by perturbations"""
+
+    def __init__(self, seed, idx, count):
+        self.rng = random.Random(seed)
+        self.idx, self.count = idx, count
+        rng = self.rng
+        self.ext = rng.choice(['txt', 'txt', 'bin', 'dat', ''])
+        self.ext2 = rng.choice([e for e in ['txt', 'bin', 'csv'] if e != self.ext])
+        self.cfg = {'algo': rng.choice([0, 0, 0, 1, 2, 3]), 'method': rng.choice(['copy', 'copy', 'copy', 'symlink', 'hardlink', 'reflink']), 'tob': 'auto'}
+        self.universe = set()
+        self.ncmds = rng.randint(3, 5)
+        self.serial = 0
+        self.done = False
+        self.object_removed = False
+
+    def nm(self, d, n, e=None):
+        e = self.ext if e is None else e
+        return (d + '/' if d else '') + n + ('.' + e if e else '')
+
+    def content(self, tag):
+        self.serial += 1
+        if self.rng.random() < 0.3:
+            return bytes(f'{tag}#{self.idx}.{self.serial}', 'utf-8') + b'\x00\x01\n\r\xff'           # binary
+        return bytes(f'{tag} #{self.idx}.{self.serial}\nsecond line\n', 'utf-8')                       # text; unique after stripping
+
+    def count_(self, key):
+        self.count(key)
+
+    # ---- first batch: the repository
+    def setup(self):
+        rng = self.rng
+        files = []
+        for d in MANY_DIRS:
+            for n in rng.sample(MANY_NAMES, rng.randint(1, 3)):
+                files.append(self.nm(d, n))
+        if rng.random() < 0.6:
+            files.append(self.nm('d', 'x', self.ext2))
+        if rng.random() < 0.4:
+            files.append(self.nm('d/e', 'y', self.ext2))
+        if rng.random() < 0.5:
+            files.append(self.nm('', 'top'))
+        files = sorted(set(files))
+        cmds = [W(p, self.content(p)) for p in files]
+        self.universe |= set(files)
+        untracked = set(rng.sample(files, rng.randint(0, 2)))
+        tracked = [p for p in files if p not in untracked]
+        rng.shuffle(tracked)
+        # two track commands with different methods: the selected sources of one command carry different methods
+        cut = rng.randint(1, len(tracked)) if tracked else 0
+        m1, m2 = rng.choice([None, None, 'symlink', 'hardlink', 'copy']), rng.choice([None, 'symlink', 'copy', 'reflink'])
+        if tracked[:cut]: cmds.append(T(sorted(tracked[:cut]), method=m1, no_parallel=rng.random() < 0.5))
+        if tracked[cut:]: cmds.append(T(sorted(tracked[cut:]), method=m2, no_parallel=rng.random() < 0.5))
+        if rng.random() < 0.25 and tracked:
+            # a second path with exactly the bytes of a tracked one (one cache object, two records); own track command
+            src = rng.choice(tracked)
+            dup = self.nm('k', 'dup', rh.ext_of(src))
+            b = next(c['bytes'] for c in cmds if c['op'] == 'write' and c['path'] == src)
+            cmds += [W(dup, b), T([dup], no_parallel=True)]
+            self.universe.add(dup)
+            self.count_('many:setup:duplicate-content')
+        return cmds
+
+    # ---- later batches
+    def source_arg(self, obs):
+        rng = self.rng
+        tracked = sorted(obs.recs)
+        below = collections.Counter()                       # directory -> number of recorded files below it
+        for p in tracked:
+            parts = p.split('/')[:-1]
+            for j in range(1, len(parts) + 1):
+                below['/'.join(parts[:j])] += 1
+        dirs = sorted(below) or ['d']
+        rich = [d for d in dirs if below[d] >= 2]
+        kind = rng.choice(['dir/'] * 3 + ['dir'] * 3 + ['glob-ext'] * 2 + ['glob-rec'] * 2 + ['class'] * 2 + ['file', 'nothing'])
+        d = rng.choice(rich) if rich and rng.random() < 0.8 else rng.choice(dirs)
+        here = [p for p in tracked if p.rsplit('/', 1)[0] == d]
+        e = rh.ext_of(rng.choice(here)) if here and rng.random() < 0.8 else rng.choice([self.ext, self.ext2])
+        dot = ('.' + e) if e else ''
+        stem = lambda p: p.rsplit('/', 1)[-1].split('.')[0]
+        if kind == 'dir/': return kind, d + '/'
+        if kind == 'dir': return kind, d
+        if kind == 'glob-ext': return kind, (f'{d}/*{dot}' if dot else f'{d}/*')
+        if kind == 'glob-rec':
+            name = stem(rng.choice(tracked)) if tracked else 'a'
+            return kind, rng.choice([f'{d}/**', f'**/*{dot}' if dot else '**', f'**/{name}{dot}', f'*/{name}{dot}'])
+        if kind == 'class':
+            ns = sorted({stem(p)[0] for p in here} | set(rng.sample(MANY_NAMES, 1)))
+            return kind, f'{d}/[{"".join(ns[:3])}]{dot}'
+        if kind == 'file' and tracked: return kind, rng.choice(tracked)
+        if kind == 'file': return kind, rng.choice(sorted(self.universe))
+        return 'nothing', rng.choice(['nosuchdir/', 'nosuch/*' + dot, 'zz' + dot])
+
+    def batch(self, obs, k):
+        rng = self.rng
+        if k == 0:
+            return self.setup()
+        if self.done:
+            return None
+        if k > self.ncmds:
+            # last: everything that is recorded and absent is restored (destinations of --no-recheck, sources of K-free moves)
+            self.done = True
+            absent = sorted(p for p in obs.recs if p not in obs.ws)
+            return [RC(absent[:8])] if absent else None
+        op = rng.choice(['copym', 'copym', 'copym', 'movem', 'movem'])
+        skind, source = self.source_arg(obs)
+        cands = candidates(source, self.universe, obs.recs)
+        sel = [p for p in cands if p in obs.recs]
+        c = {'op': op, 'source': source, 'cands': cands, 'method': rng.choice([None, None, None, 'copy', 'symlink', 'hardlink', 'reflink']),
+             'no_recheck': rng.random() < 0.15, 'force': op == 'copym' and rng.random() < 0.2,
+             'name_only': op == 'copym' and rng.random() < 0.4}
+        # destination
+        dkind = rng.choice(['new-dir'] * 9 + ['nested-new-dir'] * 4 + ['existing-dir'] * 4 + ['file'] * 2 + ['tracked-file-as-dir'])
+        if len(sel) == 1 and rng.random() < 0.3: dkind = 'file'
+        if not sel and dkind == 'file' and rng.random() < 0.85: dkind = 'new-dir'      # no source + file destination panics (`unwrap`)
+        fresh = f'o{k}'
+        if dkind == 'new-dir': c['dest'] = fresh + '/'
+        elif dkind == 'nested-new-dir': c['dest'] = f'{fresh}/sub/'
+        elif dkind == 'existing-dir': c['dest'] = rng.choice(sorted({p.split('/')[0] for p in self.universe if '/' in p})) + '/'
+        elif dkind == 'tracked-file-as-dir' and obs.recs: c['dest'] = rng.choice(sorted(obs.recs)) + '/'
+        else:
+            dkind = 'file'
+            e = rh.ext_of(sel[0]) if sel else self.ext                     # K2: same extension
+            c['dest'] = rng.choice([fresh, f'{fresh}/g']) + ('.' + e if e else '')
+            if sel and rng.random() < 0.25:
+                same = [p for p in sorted(obs.recs) if rh.ext_of(p) == e and p not in cands]
+                if same: c['dest'], dkind = rng.choice(same), 'file-tracked'
+        pairs, isdir = many_pairs(c, obs)
+        # collisions (finding; replayed by MANY_REPLAYS, never generated)
+        if c['name_only'] and len({d for _, d in pairs}) < len(pairs):
+            c['name_only'] = False
+            self.count_('many:excluded:name-only-collision')
+            pairs, isdir = many_pairs(c, obs)
+        # overlap: a destination that is itself a candidate source
+        alld = {(c['dest'] + (p.rsplit('/', 1)[-1] if c['name_only'] else p)) if isdir else c['dest'] for p in cands}
+        if alld & set(cands):
+            c['dest'], dkind = fresh + '/', 'new-dir'
+            if c['name_only'] and len({p.rsplit('/', 1)[-1] for p in sel}) < len(sel): c['name_only'] = False
+            self.count_('many:excluded:destination-is-a-source')
+            pairs, isdir = many_pairs(c, obs)
+        pre = []
+        has_obj = lambda p: bool(obs.recs[p]['cur']) and rc.rec_addr(obs.recs[p], p) in obs.cache
+        # perturbations of the selected sources
+        mod, absent_now = [], []
+        if sel and rng.random() < 0.15:
+            p = rng.choice(sel)
+            pre.append(W(p, self.content('edited ' + p))); mod.append(p)
+        if sel and rng.random() < 0.35:
+            for p in rng.sample(sel, rng.randint(1, max(1, len(sel) // 2))):
+                if p in obs.ws and p not in mod and has_obj(p):
+                    pre.append({'op': 'delete', 'path': p}); absent_now.append(p)
+        absent = [p for p in sel if p not in obs.ws or p in absent_now]
+        if op == 'movem' and any(not has_obj(p) for p in absent):
+            c['no_recheck'] = True                  # nothing to recheck from (the recheck thread would panic)
+        if op == 'movem' and absent:
+            # K9: absent source, recorded method copy, destination method copy
+            if any(obs.recs[p]['method'] == 'copy' and c['method'] in (None, 'copy') for p in absent):
+                c['method'] = rng.choice(['symlink', 'hardlink'])
+                self.count_('many:excluded:K9-absent-source-copy-to-copy')
+        if sel and rng.random() < 0.08 and not self.object_removed:
+            # the object of one source leaves the cache: `move` must not delete that source's file (F18, over all pairs);
+            # `copy` then only writes records
+            p = rng.choice(sel)
+            if p in obs.ws and p not in mod and p not in absent_now and obs.ws[p]['kind'] == 'file' and not obs.ws[p].get('addr'):
+                pre.append({'op': 'remove', 'targets': [p], 'force': True})
+                self.object_removed = True
+                self.count_('many:perturb:object-removed')
+        if self.object_removed and op == 'copym':
+            c['no_recheck'] = True
+        # destinations that exist already
+        if pairs and rng.random() < 0.3:
+            for s_, d_ in rng.sample(pairs, rng.randint(1, min(2, len(pairs)))):
+                if d_ in obs.recs or d_ in obs.ws or d_ in cands or any(q.get('path') == d_ for q in pre):
+                    continue
+                if candidates(source, [d_], set(obs.recs) | {d_}):
+                    continue                                                    # the occupant would itself be selected (overlap)
+                if any(d_.startswith(p + '/') or p.startswith(d_ + '/') for p in list(obs.ws) + list(obs.recs) + [q.get('path', '') for q in pre]):
+                    continue                                                    # would need a directory where a file is
+                pre.append(W(d_, self.content('occupant ' + d_)))
+                if rng.random() < 0.5:
+                    pre.append(T([d_], no_parallel=True))
+                    self.count_('many:perturb:destination-tracked')
+                else:
+                    self.count_('many:perturb:destination-untracked-file')
+        for s_, d_ in pairs:
+            self.universe.add(d_)
+        for q in pre:
+            if q.get('path'): self.universe.add(q['path'])
+        self.count_(f'many:op:{op}'); self.count_(f'many:source:{skind}'); self.count_(f'many:dest:{dkind}')
+        self.count_(f'many:selected:{min(len(sel), 4)}{"+" if len(sel) >= 4 else ""}')
+        for kk in ('method', 'no_recheck', 'force', 'name_only'):
+            if c.get(kk): self.count_(f'many:opt:{kk}' + (f'={c[kk]}' if isinstance(c[kk], str) else ''))
+        if mod: self.count_('many:perturb:source-modified')
+        if absent: self.count_(f'many:perturb:sources-absent:{"all" if len(absent) == len(sel) else "some"}')
+        if len({obs.recs[p]['method'] for p in sel}) > 1: self.count_('many:selected:mixed-methods')
+        if len({p.count('/') for p in sel}) > 1: self.count_('many:selected:nested-levels')
+        return pre + [c]
+
+
+# ------------------------------------------------------------------------------------------------ oracle
+
+def _strip(b):
+    return hashref.strip_crlf(b) if b is not None else None
+
+
+def o7m_copy_move_many(steps, cfg, history):
+    """C19 for every selected source of a multi-source command, from the observations alone.
+    Demanded (the property): a modified source or (move; single-file copy without --force) a tracked destination => nothing
+    changes; a copy without --force never overwrites a tracked destination; every other pair of a command that
+    succeeded is carried out: destination tracked with the source's digest, the source's method unless overridden,
+    the same cache object, the committed bytes unless --no-recheck; copy leaves every source as it was; move leaves the
+    source untracked and absent and never changes the number of tracked files; no path is recorded twice.
+    Accepted reasons for a refusal beyond the two the property names (each makes the property unsatisfiable or
+    protects data another property is about): several sources for one file destination or one --name-only
+    destination, a destination directory that is a tracked file, an untracked file at the destination, `move` of a
+    present source whose content is not in the cache, and the K9 region (absent source, copy -> copy)."""
+    out = []
+    for st in steps:
+        c = st['cmd']
+        pre, post = st['pre'], st['post']
+        if c['op'] not in MANY_OPS or pre is None or post is None or st['rc'] not in (0, 1):
+            continue
+        copy = c['op'] == 'copym'
+        force = bool(copy and c.get('force'))
+        pairs, isdir = many_pairs(c, pre)
+        where = f"step {st['i']} {many_show(c)}"
+
+        def obj(p):
+            r = pre.recs[p]
+            return pre.cache.get(rc.rec_addr(r, p)) if r['cur'] else None
+
+        def modified(p):
+            # the bytes now at the path do not hash (raw or CR/LF-stripped, independent hashers) to the recorded digest
+            b, d = rc.read_through(pre, p), pre.recs[p]['cur']
+            if b is None or not d:
+                return False
+            hexd = ''.join(f'{x:02x}' for x in d['digest'])
+            return hexd not in (hashref.digest(d['algorithm'], b), hashref.digest(d['algorithm'], _strip(b)))
+        recsig = lambda obs: {p: (json.dumps(r['cur'], sort_keys=True), r['method']) for p, r in obs.recs.items()}
+        wssig = lambda obs: {p: (k['kind'], rc.read_through(obs, p)) for p, k in obs.ws.items()}
+        unchanged = recsig(pre) == recsig(post) and wssig(pre) == wssig(post)
+        ndst = collections.Counter(d for _, d in pairs)
+        collision = any(n > 1 for n in ndst.values())
+        new_dups = sorted(set(st.get('dups_post') or []) - set(st.get('dups_pre') or []))
+        if new_dups:
+            out.append((f"{where}: {new_dups} recorded by more than one entity afterwards" +
+                        (f" (sources {[s for s, d in pairs if d in new_dups]} share the destination)" if collision else ''),
+                        {'kind': 'name-only-collision'} if collision else {'kind': 'duplicate-path-records'}))
+        if not copy and len(post.recs) != len(pre.recs) and not new_dups:
+            out.append((f"{where}: number of tracked files changed from {len(pre.recs)} to {len(post.recs)}", {'kind': 'count-changed'}))
+        mods = [s for s, _ in pairs if modified(s)]
+        single_file = (not isdir) and len(pairs) == 1
+        must = bool(mods) or (not copy and any(d in pre.recs for _, d in pairs)) or (single_file and pairs[0][1] in pre.recs and not force)
+        if must:
+            if not unchanged:
+                why = f'source {mods[0]} modified' if mods else 'destination tracked'
+                out.append((f"{where}: must refuse ({why}) but changed records or workspace", {'kind': 'copy-move-not-refused', 'many': True}))
+            continue
+        dest_dir_is_file = isdir and c['dest'][:-1] in pre.recs
+        def blocked(s):      # move deletes a present source file (it is renamed only copy -> copy with recheck): the object must exist
+            r = pre.recs[s]
+            renamed = r['method'] == 'copy' and (c.get('method') or r['method']) == 'copy' and not c.get('no_recheck')
+            o = obj(s)
+            return s in pre.ws and not renamed and not (o and o['bytes'] is not None)
+        def k9(s):
+            r = pre.recs[s]
+            return s not in pre.ws and r['method'] == 'copy' and (c.get('method') or r['method']) == 'copy'
+        allowed = (not pairs) or dest_dir_is_file or ((not isdir) and len(pairs) > 1) or collision or \
+            (not copy and any(d in pre.ws or blocked(s) or k9(s) for s, d in pairs)) or \
+            (single_file and pairs[0][1] in pre.ws and not force)
+        if st['rc'] == 1:
+            if not allowed:
+                out.append((f"{where}: refused ({st['err'][-160:].strip()}) although no source has uncommitted changes, no destination is "
+                            f"tracked or present and every source maps to its own destination", {'kind': 'copy-move-wrongly-refused', 'op': c['op'], 'many': True}))
+            continue
+        if not pairs or dest_dir_is_file or ((not isdir) and len(pairs) > 1):
+            continue
+        srcs = {s for s, _ in pairs}
+        for s, d in pairs:
+            rs = pre.recs[s]
+            sb_, o = rc.read_through(pre, s), obj(s)
+            if copy and d not in srcs:
+                # copy leaves every selected source alone (carried out or skipped)
+                if s not in post.recs or post.recs[s]['cur'] != rs['cur'] or post.recs[s]['method'] != rs['method'] or \
+                        rc.read_through(post, s) != sb_ or (s in pre.ws) != (s in post.ws):
+                    out.append((f"{where}: copy changed the source {s}", {'kind': 'source-changed', 'many': True}))
+            if ndst[d] > 1:
+                continue
+            if copy and not force and (d in pre.recs or d in pre.ws):
+                if d in pre.recs and (recsig(post).get(d) != recsig(pre)[d] or rc.read_through(post, d) != rc.read_through(pre, d)):
+                    out.append((f"{where}: tracked destination {d} was overwritten without --force", {'kind': 'tracked-destination-overwritten'}))
+                continue
+            if not copy and (d in pre.ws or blocked(s) or k9(s)):
+                continue
+            if rh.ext_of(s) != rh.ext_of(d):
+                continue                                                      # K2
+            rd = post.recs.get(d)
+            if not rd:
+                out.append((f"{where}: destination {d} of source {s} is not tracked afterwards", {'kind': 'dest-not-tracked', 'many': True})); continue
+            if rd['cur'] != rs['cur']:
+                out.append((f"{where}: digest recorded for {d} differs from the digest of its source {s}", {'kind': 'dest-digest', 'many': True}))
+            want_m = c.get('method') or rs['method']
+            if rd['method'] != want_m:
+                out.append((f"{where}: method recorded for {d} is {rd['method']}, expected {want_m}", {'kind': 'dest-method', 'many': True}))
+            if rc.rec_addr(rd, d) != rc.rec_addr(rs, s):
+                out.append((f"{where}: {d} does not share the cache object of {s}", {'kind': 'dest-object', 'many': True}))
+            if not c.get('no_recheck') and o is not None and o['bytes'] is not None and rc.read_through(post, d) != o['bytes']:
+                got = rc.read_through(post, d)
+                out.append((f"{where}: {d} {'is absent' if got is None else 'has other bytes than the committed version of ' + s}", {'kind': 'dest-bytes', 'many': True}))
+            if not copy and (s in post.recs or s in post.ws) and s not in {dd for _, dd in pairs}:
+                out.append((f"{where}: move left the source {s} {'tracked' if s in post.recs else 'present'}", {'kind': 'source-left', 'many': True}))
+    return out
+
+
+MANY_ORACLES = [o7m_copy_move_many, rc.o1r_recheck_restores]
+
+# replays: the name-only collision (finding F28 up to 57353a5e; since the repair 6bdf9b9d the command is refused, which the
+# oracle accepts)
+_COLL = [W('d/a.txt', b'content of d/a\n'), W('d2/a.txt', b'content of d2/a\n'), W('d/b.txt', b'b\n'),
+         T(['d/a.txt', 'd2/a.txt', 'd/b.txt'])]
+MANY_REPLAYS = [
+    ('name-only-collision', rc.DEF, _COLL + [
+        {'op': 'copym', 'source': '**/*.txt', 'dest': 'on/', 'name_only': True, 'cands': ['d/a.txt', 'd/b.txt', 'd2/a.txt']}]),
+    ('name-only-collision-force', rc.DEF, _COLL + [
+        {'op': 'copym', 'source': '*/a.txt', 'dest': 'on/', 'name_only': True, 'force': True, 'no_recheck': True, 'cands': ['d/a.txt', 'd2/a.txt']}]),
+]
+# fixed histories that always run (shapes the generator reaches only with some seeds)
+MANY_CORPUS = [
+    ('dir-nested-name-only', rc.DEF, [W('d/a.txt', b'1\n'), W('d/e/n.txt', b'2\n'), W('d/e/f/z.txt', b'3\n'), W('d/x.bin', b'4\x00'), T(['d/a.txt', 'd/e/n.txt', 'd/e/f/z.txt', 'd/x.bin']),
+                                      {'op': 'copym', 'source': 'd/', 'dest': 'o1/', 'cands': ['d/a.txt', 'd/x.bin']},
+                                      {'op': 'copym', 'source': 'd', 'dest': 'o2/', 'name_only': True, 'method': 'symlink', 'cands': ['d/a.txt', 'd/e/f/z.txt', 'd/e/n.txt', 'd/x.bin']},
+                                      {'op': 'movem', 'source': 'd', 'dest': 'o3/', 'cands': ['d/a.txt', 'd/e/f/z.txt', 'd/e/n.txt', 'd/x.bin']},
+                                      {'op': 'movem', 'source': 'o3/d/e/**', 'dest': 'o1/', 'method': 'hardlink', 'cands': ['o3/d/e/f/z.txt', 'o3/d/e/n.txt']}]),
+    ('partly-existing', rc.DEF, [W('d/a.txt', b'1\n'), W('d/b.txt', b'2\n'), W('d/c.txt', b'3\n'), W('out/d/a.txt', b'other\n'), W('out/d/b.txt', b'untracked\n'),
+                                 T(['d/a.txt', 'd/b.txt', 'd/c.txt', 'out/d/a.txt']),
+                                 {'op': 'movem', 'source': 'd/', 'dest': 'out/', 'cands': ['d/a.txt', 'd/b.txt', 'd/c.txt']},
+                                 {'op': 'copym', 'source': 'd/', 'dest': 'out/', 'cands': ['d/a.txt', 'd/b.txt', 'd/c.txt']},
+                                 {'op': 'copym', 'source': 'd/*.txt', 'dest': 'out/', 'force': True, 'cands': ['d/a.txt', 'd/b.txt', 'd/c.txt']}]),
+    ('partly-modified-absent', {'algo': 1, 'method': 'symlink', 'tob': 'auto'},
+     [W('d/a.txt', b'1\n'), W('d/b.txt', b'2\n'), W('d/c.txt', b'3\n'), T(['d/a.txt', 'd/b.txt', 'd/c.txt']), {'op': 'delete', 'path': 'd/a.txt'}, W('d/b.txt', b'edited\n'),
+      {'op': 'copym', 'source': 'd/', 'dest': 'o1/', 'cands': ['d/a.txt', 'd/b.txt', 'd/c.txt']},
+      {'op': 'movem', 'source': 'd/', 'dest': 'o1/', 'cands': ['d/a.txt', 'd/b.txt', 'd/c.txt']},
+      RC(['d/b.txt'], force=True),
+      {'op': 'copym', 'source': 'd/[ab].txt', 'dest': 'o1/', 'no_recheck': True, 'cands': ['d/a.txt', 'd/b.txt']},
+      {'op': 'movem', 'source': 'd/', 'dest': 'o2/', 'cands': ['d/a.txt', 'd/b.txt', 'd/c.txt']},
+      {'op': 'movem', 'source': 'o2/d/*', 'dest': 'single.txt', 'cands': ['o2/d/a.txt', 'o2/d/b.txt', 'o2/d/c.txt']},
+      {'op': 'copym', 'source': 'o2/d/', 'dest': 'o1/d/a.txt/', 'cands': ['o2/d/a.txt', 'o2/d/b.txt', 'o2/d/c.txt']}]),
+]
+
+
+def _case(cfg, hist):
+    return {'cfg': cfg, 'many_history': [many_store_line(c) for c in hist], 'readable': [many_show(c) for c in hist]}
+
+
+def _judge(steps, cfg, hist):
+    fails = []
+    for o in MANY_ORACLES:
+        fails += o(steps, cfg, hist)
+    return fails
+
+
+def run_many(chk, model, xvc):
+    """the multi-source stream; called by run_property just before the verdict"""
+    import time
+    t_start = time.time()
+    quick = chk.tier == 'quick'
+    n = 80 if quick else 900
+    fixed = collisions_refused()
+    r = ManyRunner(chk, xvc, model)
+    have_model = os.path.exists(model)
+    dist = collections.Counter()
+    gens = [ManyGen(chk.rng.getrandbits(64), i, lambda k: dist.update([k])) for i in range(n)]
+    jobs = [('corpus', name, cfg, h, None) for name, cfg, h in MANY_CORPUS] + [('gen', f'm{i}', g.cfg, None, g) for i, g in enumerate(gens)]
+
+    def one(job):
+        kind, name, cfg, h, g = job
+        try:
+            return r.run_adaptive('many-' + name, cfg, g.batch if g else None, fixed_history=h)
+        except Exception:
+            import traceback
+            return (h or []), [{'i': -1, 'cmd': {'op': 'harness-error'}, 'rc': -1, 'err': traceback.format_exc()[-800:], 'abs': 'harness-error', 'pre': None, 'post': None, 'out': ''}]
+    with ThreadPoolExecutor(max_workers=16) as ex:
+        results = list(ex.map(one, jobs))
+    for k, v in dist.items():
+        chk.count(k, v)
+    mod = r.many_model_answers([(job[2], hist) for job, (hist, _) in zip(jobs, results)], fixed) if have_model else [[None] * len(h) for h, _ in results]
+    st_tie = chk.tie['streams'].setdefault('c19-many (multi-source copy/move)', {'histories': 0, 'commands': 0, 'multi_source_commands': 0, 'pairs_carried_out': 0,
+                                                                                 'disagreements': 0, 'panics': 0, 'collisions_refused_variant': fixed})
+    first_dis, shrunk = None, set()
+    for job, (hist, steps), m in zip(jobs, results, mod):
+        kind, name, cfg, _, g = job
+        chk.evaluations += 1
+        st_tie['histories'] += 1
+        if steps and steps[0]['cmd']['op'] == 'harness-error':
+            chk.disagreement('c19-many', [many_show(c) for c in hist], steps[0]['err'], '', 'harness error')
+            continue
+        carried = 0
+        for s, ml in zip(steps, m):
+            st_tie['commands'] += 1
+            c = s['cmd']
+            if c['op'] in MANY_OPS:
+                st_tie['multi_source_commands'] += 1
+                pairs, isdir = many_pairs(c, s['pre'])
+                done = [d for _, d in pairs if s['rc'] == 0 and d in s['post'].recs and (c.get('force') or d not in s['pre'].recs)]
+                carried += len(done)
+                st_tie['pairs_carried_out'] += len(done)
+                chk.count(f"many:rc:{c['op']}:{s['rc']}")
+                chk.count(f"many:carried-out:{min(len(done), 4)}{'+' if len(done) >= 4 else ''}")
+                if s['rc'] == 0 and len(done) < len(pairs): chk.count('many:copy:some-pairs-skipped')
+            if s['rc'] not in (0, 1): st_tie['panics'] += 1
+            if ml is None:
+                continue
+            d = rh.compare_step(s, ml)
+            if d:
+                st_tie['disagreements'] += 1
+                if first_dis is None:
+                    first_dis = (cfg, hist, s, ml, d)
+                break
+        if carried >= 2:
+            chk.nontrivial.add('many-' + hashlib.sha1(json.dumps([many_store_line(c) for c in hist]).encode()).hexdigest())
+        seen = set()
+        for msg, sig in _judge(steps, cfg, hist):
+            key = json.dumps(sig, sort_keys=True)
+            if key in seen: continue
+            seen.add(key)
+            h2 = hist
+            if key not in shrunk and len(shrunk) < 2:
+                # minimise: drop commands while the same kind of failure remains (re-run on the real binary)
+                shrunk.add(key)
+                def still(cand, key=key, cfg=cfg):
+                    _, st2 = r.run_adaptive('many-shrink', cfg, None, fixed_history=cand)
+                    return any(json.dumps(sg, sort_keys=True) == key for _, sg in _judge(st2, cfg, cand))
+                h2 = common.shrink(list(hist), still, max_steps=40)
+                _, st2 = r.run_adaptive('many-shrink', cfg, None, fixed_history=h2)
+                msg = next((mm for mm, sg in _judge(st2, cfg, h2) if json.dumps(sg, sort_keys=True) == key), msg)
+            chk.oracle_failure(msg, _case(cfg, h2), None, signature=sig)
+        if len(chk.samples) < 8 and carried >= 2 and st_tie['histories'] % 7 == 3:
+            chk.samples.append({'cfg': cfg, 'history': [many_show(c) for c in hist], 'final_abstraction_implementation': steps[-1]['abs'][:600],
+                                'final_abstraction_model': (m[len(steps) - 1] or '')[:600]})
+    if first_dis:
+        cfg, hist, s, ml, d = first_dis
+        chk.disagreement('c19-many', dict(_case(cfg, hist[:s['i'] + 1]), model_lines=[many_model_line(c, fixed) for c in hist[:s['i'] + 1]]), s['abs'], ml, d)
+    # replays of the finding: oracle only (with the repair in the tree also compared with the model)
+    for name, cfg, h in MANY_REPLAYS:
+        hist, steps = r.run_adaptive('many-replay-' + name, cfg, None, fixed_history=h)
+        chk.evaluations += 1
+        chk.count(f"many:replay:{name}:rc={steps[-1]['rc']}")
+        for msg, sig in _judge(steps, cfg, hist):
+            chk.oracle_failure(msg, dict(_case(cfg, hist), replay_of=name), None, signature=sig)
+        if fixed and have_model:
+            m = r.many_model_answers([(cfg, hist)], True)[0]
+            for s, ml in zip(steps, m):
+                d = rh.compare_step(s, ml)
+                if d:
+                    chk.disagreement('c19-many', dict(_case(cfg, hist[:s['i'] + 1]), replay_of=name), s['abs'], ml, d); break
+    st_tie['wall_s'] = round(time.time() - t_start, 1)
+    chk.extra['rule'] = chk.extra.get('rule', '') + (
+        f' || multi-source stream: {len(MANY_CORPUS)} fixed + {n} adaptive histories (repository with nested directories, equal file names in different '
+        'directories, two extensions, tracked/untracked files, mixed recheck methods; then 3..5 commands `xvc file copy|move <dir/ | dir | glob | class | file> '
+        '<dir/ | file>` with --name-only/--no-recheck/--recheck-method/--force, each preceded by perturbations drawn from the OBSERVED repository: source '
+        'modified / absent, destination tracked / untracked, object removed), every command compared with the Lean driver (copym/movem) and judged by '
+        'o7m_copy_move_many; non-trivial = at least two pairs carried out')
+    chk.assumptions.append('multi-source stream: which recorded paths a SOURCE argument selects is computed by lib/c19.py candidates() (C18 is about selection); '
+                           'excluded regions: --name-only collisions (replayed, finding), a destination that is itself a selected source, K2, K9, K1')
+
+
 def run(chk):
     n = 30 if chk.tier == 'quick' else 300
-    return rc.run_property(chk, 'C19', ORACLES, restore=RESTORE, nq=250, extra_corpus=chain_histories(chk.seed, n))
+    ctx = {}
+    orig_lean, orig_build = chk.lean, chk.build_xvc
+
+    def lean(pkg, props, exe=None, extra_modules=()):           # remember what run_property builds
+        res = orig_lean(pkg, props, exe=exe, extra_modules=extra_modules)
+        if exe: ctx['model'] = res
+        return res
+
+    def build_xvc(features=None):
+        ctx['xvc'] = orig_build(features)
+        return ctx['xvc']
+    chk.lean, chk.build_xvc = lean, build_xvc
+    return rc.run_property(chk, 'C19', ORACLES, restore=RESTORE, nq=250, extra_corpus=chain_histories(chk.seed, n),
+                           extra_props=['XvcRepo.Props.C19Many'], before_finish=lambda: run_many(chk, ctx['model'], ctx['xvc']))
 
 
 def replay(chk, data):
-    return rc.replay_property(chk, data, ORACLES, restore=RESTORE)
+    many = [f for f in data.get('failures', []) if 'many_history' in f.get('case', {})]
+    rest = dict(data, failures=[f for f in data.get('failures', []) if 'many_history' not in f.get('case', {})])
+    if many:
+        r = ManyRunner(chk, chk.build_xvc(), '/bin/false')
+        for f in many:
+            case = f['case']
+            h = [c for c in (many_parse_line(l) for l in case['many_history']) if c]
+            hist, steps = r.run_adaptive('many-replay', case['cfg'], None, fixed_history=h)
+            fails = _judge(steps, case['cfg'], hist)
+            chk.evaluations += 1
+            for c, s in zip(hist, steps): print(' ', many_show(c), '-> rc', s['rc'])
+            print('oracle:', [m for m, _ in fails] or 'property holds on this input')
+            for msg, sig in fails:
+                chk.oracle_failure(msg, case, None, signature=sig)
+        if not rest['failures']:
+            return chk.finish()
+    return rc.replay_property(chk, rest, ORACLES, restore=RESTORE)
